@@ -76,3 +76,15 @@ def feature_check(prop, tier, seed, cov, violations):
     cov["samples"].append(evs[1])
     for (ln, why, tag) in r["mismatches"]:
         violations.append(("features-%d" % ln, [evs[0], evs[ln - 1]], {"reason": why, "event": evs[ln - 1]}))
+
+
+def abi_reference_coverage(prop, tier, seed, cov, violations):
+    """C19 bookkeeping: which exported constants the reference table knows (the others are unchecked, said so)."""
+    import re
+    ref = set(re.findall(r"^  (\w+) \|->", open(os.path.join(vlib.SPEC, "AbiRef.tla")).read(), re.M))
+    up = {n.upper() for n in ref}
+    names = re.findall(r"^pub const (\w+): (?:u8|u16|u32|u64|i64|i32|usize) =", open(os.path.join(vlib.REPO, "src", "abi.rs")).read(), re.M)
+    unchecked = [n for n in names if n not in ref and n.upper() not in up]
+    cov["constants_exported"] = len(names)
+    cov["constants_checked_against_reference"] = len(names) - len(unchecked)
+    cov["constants_not_in_reference"] = unchecked[:100]
